@@ -269,3 +269,26 @@ func panicString(r interface{}) string {
 	}
 	return s
 }
+
+// sigNorm makes a message usable inside a violation signature: digit runs become N so that the
+// same defect on another input keeps its identity.
+func sigNorm(s string) string {
+	var b strings.Builder
+	inDigits := false
+	for _, r := range s {
+		if r >= '0' && r <= '9' {
+			if !inDigits {
+				b.WriteByte('N')
+			}
+			inDigits = true
+			continue
+		}
+		inDigits = false
+		b.WriteRune(r)
+	}
+	out := b.String()
+	if len(out) > 120 {
+		out = out[:120]
+	}
+	return out
+}
